@@ -647,6 +647,18 @@ func designated(ms []routeMatcher, rawPath string) []Route {
 	return out
 }
 
+// allWholeSegments: every parameter of every given route is a whole segment.
+func allWholeSegments(rts []Route) bool {
+	for _, rt := range rts {
+		for _, seg := range strings.Split(rt.Path, "/") {
+			if strings.Contains(seg, "{") && !(strings.HasPrefix(seg, "{") && strings.HasSuffix(seg, "}") && strings.Count(seg, "{") == 1) {
+				return false
+			}
+		}
+	}
+	return true
+}
+
 // wholeSegments: all designated routes for the method have templates in which every parameter is a whole segment.
 func wholeSegments(rts []Route, method string) bool {
 	n := 0
@@ -709,7 +721,10 @@ func routingRule(r *CRecord, ms []routeMatcher, pkg string) []problem {
 			}
 		case len(forMethod) == 0:
 			preflight := r.ReqMethod == "OPTIONS" && s.Status == 204
-			if s.MiddlewareOps != 0 || s.HandlerCalls != 0 || (s.Status != 405 && !preflight) {
+			// a template with a parameter that is only part of a segment may be read as not matching (which text
+			// belongs to which parameter is ogen's choice): 404 is as good as 405 there
+			lenient := s.Status == 404 && !allWholeSegments(rts)
+			if s.MiddlewareOps != 0 || s.HandlerCalls != 0 || (s.Status != 405 && !preflight && !lenient) {
 				add("a path whose operations do not take the method is answered 405 and reaches no handler", fmt.Sprintf("delivery %d: status %d, middleware saw %q", i, s.Status, s.MiddlewareSaw))
 			}
 		case s.MiddlewareOps > 0:
